@@ -276,6 +276,10 @@ class BaseEMSurvey(ObjectBase, ABC):  # pylint: disable=too-many-public-methods
         clear_cache: bool = False,
         mask: np.ndarray | None = None,
     ):
+        if mask is not None and self.complement.n_vertices != mask.shape[0]:
+            # e.g. a single base station for all receivers: the mask does not apply
+            mask = None
+
         new_complement = self.complement._super_copy(  # pylint: disable=protected-access
             parent=parent,
             copy_children=copy_children,
